@@ -75,6 +75,7 @@ def run(ctx):
             msgs.append((c, wrap(c, body_s, "{2:O%s1200260930BANKDEFFAXXX00000000002609301201N}" % c), "output-b2"))
             msgs.append((c, wrap(c, body_s, None, "{3:{103:EBA}{113:URGT}{108:MUR123}{119:STP}{121:7d1c3a2e-9c3b-4f5a-8d2e-1b2c3d4e5f60}}", "{5:{CHK:123456789ABC}{TNG:}}"), "b3-b5"))
             msgs.append((c, wrap(c, body_s, None, "{3:{108:}}", "{5:{MAC:00000000}{CHK:123456789ABC}{PDE:}}"), "b3-empty-108"))
+            msgs.append((c, wrap(c, body_s, None, "{3:}", "{5:}"), "b3-b5-empty"))
     n = 40 if full else 8
     for c in mtgen.SUPPORTED:
         for k in range(n):
@@ -127,6 +128,10 @@ def run(ctx):
             if isinstance(v, float) and not math.isfinite(v):
                 ctx.violations.append(("MT%s: non-finite number at %s" % (c, p), case))
             if isinstance(v, dict) and not v and p:
+                # a block that is present and empty in the input ({3:} / {5:}) is not an absent element:
+                # its empty object is the faithful image of the input, not a placeholder
+                if (p == "/user_header" and "{3:}" in text) or (p == "/trailer" and "{5:}" in text):
+                    continue
                 known_or_violation("empty_object", "MT%s (%s): empty placeholder object at %s" % (c, origin, p), case)
             if isinstance(v, str) and v == "" and p.startswith("/fields") and p.split("/")[-1] not in ("content",):
                 known_or_violation("empty_string:" + re.sub(r"/\d+", "", p), "MT%s (%s): empty string at %s for an absent or empty component" % (c, origin, p), case)
